@@ -22,6 +22,7 @@ import BU.Properties.C08_Key
 #print axioms C08Gen.gen_tapleaf
 #print axioms C08GenAddr.gen_to_taproot_hex
 #print axioms C08GenAddr.gen_address_commits
+#print axioms C08GenAddr.gen_get_taproot_address
 #print axioms C08GenTree.gen_merkle_root
 #print axioms C08GenTree.gen_merkle_root_edge
 #print axioms C08GenTree.gen_calculate_tweak
